@@ -1,17 +1,232 @@
-"""Setup / self-check: the reference model must reproduce documented examples and
-memoised == un-memoised evaluation; the implementation must be importable."""
+"""Setup / self-check (MANIFEST.setup_cmd): nothing is built; this verifies that the implementation under test is
+importable from the working tree and that the reference model is sane:
+
+ (a) documented examples (README, docs/expressions/separated_list.md) hand-translated to the AST evaluate to the
+     documented results;
+ (b) memoised and un-memoised evaluation of the model agree (all expressions with <=1 operator x inputs <=3);
+ (c) the operator-table clause (flat scan + Pratt builder) selects exactly the tree that a second, declarative
+     definition selects (enumerate every unary/binary tree over the token run, keep those without precedence /
+     associativity conflict, longest group prefix) on all tables of three rows x all token strings up to 5 tokens.
+"""
+import itertools
 import sys
+import time
+
+
+def doc_examples():
+    from .model import Spec, Model, plain
+    A = ('str', 'a')
+    cases = []
+    # README: sequences, choice, option, repetition
+    sp = Spec([('start', ('rule', None, ('seq', A, ('opt', ('str', 'b')))))])
+    cases += [(sp, 'ab', (['a', 'b'], 2)), (sp, 'a', (['a', None], 1)), (sp, 'b', None)]
+    # docs/expressions/separated_list.md:  e // s   and   e /? s
+    word = ('re', '[a-z]+')
+    sp = Spec([('start', ('rule', None, ('sep', word, ('str', ','), True, False, True, False)))])
+    cases += [(sp, 'a,b', (['a', 'b'], 3)), (sp, 'a,b,', (['a', 'b'], 3)), (sp, '', ([], 0))]
+    sp = Spec([('start', ('rule', None, ('sep', word, ('str', ','), True, True, True, False)))])
+    cases += [(sp, 'a,b,', (['a', 'b'], 4))]
+    sp = Spec([('start', ('rule', None, ('sep', word, ('str', ','), False, False, True, False)))])
+    cases += [(sp, 'a,b', (['a', ',', 'b'], 3))]
+    # README: ignore + class
+    sp = Spec([('start', ('rule', None, ('star', ('ref', 'W')))), ('W', ('class', None, [('w', False, word)]))], ignores=[('re', '\\s+')])
+    m = Model(sp)
+    r = m.parse('start', ' ab  cd ')
+    assert r[1] == 8 and [o.w for o in r[0]] == ['ab', 'cd'] and r[0][0].span == (1, 5), r
+    # README arithmetic: precedence and associativity
+    num = ('apply', ('re', '\\d+'), ('py', 'int'))
+    table = (('mixfix', (('left', ('right', ('str', '('), ('ref', 'E')), ('str', ')')),)), ('prefix', (('str', '-'),)),
+             ('right', (('str', '^'),)), ('left', (('str', '*'), ('str', '/'))), ('left', (('str', '+'), ('str', '-'))))
+    sp = Spec([('E', ('rule', None, ('optable', num, table))), ('start', ('rule', None, ('ref', 'E')))])
+
+    def show(t):
+        from .model import Obj
+        if isinstance(t, Obj):
+            if t.cls == 'Infix':
+                return '(%s%s%s)' % (show(t.left), t.operator, show(t.right))
+            if t.cls == 'Prefix':
+                return '(%s%s)' % (t.operator, show(t.right))
+            return '(%s%s)' % (show(t.left), t.operator)
+        return str(t)
+    for text, want in (('1+2*3', '(1+(2*3))'), ('2^3^2', '(2^(3^2))'), ('1-2-3', '((1-2)-3)'), ('-2^2', '((-2)^2)'),
+                       ('(1+2)*3', '((1+2)*3)'), ('1+', '1'), ('--1', '(-(-1))')):
+        r = Model(sp).parse('start', text)
+        assert r is not None and show(r[0]) == want, (text, r and show(r[0]))
+    for sp, text, want in cases:
+        r = Model(sp).parse('start', text)
+        assert (r if r is None else (r[0], r[1])) == want, (text, r, want)
+    return len(cases) + 8
+
+
+def memo_agreement():
+    from .model import Spec, Model, IllFormed, plain
+    from .props import c01
+    from . import e1
+    n = 0
+    inputs = e1.strings('abA', 3)
+    for k in range(0, 2):
+        for e in c01.gen(k, c01.LEAVES):
+            if not c01.wellformed(e, c01.AUXD):
+                continue
+            sp = Spec([('start', ('rule', None, e))] + c01.AUX)
+            for t in inputs:
+                try:
+                    a = Model(sp).parse('start', t)
+                    b = Model(sp, memoize=False).parse('start', t)
+                except IllFormed:
+                    continue
+                n += 1
+                assert (a is None) == (b is None) and (a is None or (plain(a[0]), a[1]) == (plain(b[0]), b[1])), (e, t)
+    return n
+
+
+# --- (c) declarative operator-table semantics ---------------------------------------------------------
+def _trees(toks, i, j, memo):
+    key = (i, j)
+    if key in memo:
+        return memo[key]
+    out = []
+    if j - i == 1 and toks[i][0] == 'opd':
+        out.append(('o',))
+    if j - i >= 2:
+        if toks[i][0] == 'pre':
+            for r in _trees(toks, i + 1, j, memo):
+                out.append(('P', toks[i][1], r))
+        if toks[j - 1][0] == 'post':
+            for l in _trees(toks, i, j - 1, memo):
+                out.append(('Q', l, toks[j - 1][1]))
+        for k in range(i + 1, j - 1):
+            if toks[k][0] == 'inf':
+                for l in _trees(toks, i, k, memo):
+                    for r in _trees(toks, k + 1, j, memo):
+                        out.append(('I', l, toks[k][1], r, toks[k][2]))
+    memo[key] = out
+    return out
+
+
+def _rexp(t):
+    if t[0] == 'I':
+        return [(t[2], t[4])] + _rexp(t[3])
+    if t[0] == 'P':
+        return [(t[1], None)] + _rexp(t[2])
+    return []
+
+
+def _lexp(t):
+    if t[0] == 'I':
+        return [(t[2], t[4])] + _lexp(t[1])
+    if t[0] == 'Q':
+        return [(t[2], None)] + _lexp(t[1])
+    return []
+
+
+def _valid(t):
+    if t[0] == 'o':
+        return True
+    if t[0] == 'I':
+        L, A = t[2], t[4]
+        if not _valid(t[1]) or not _valid(t[3]):
+            return False
+        if any(not (l < L or (l == L and A == 'left')) for l, a in _rexp(t[1])):
+            return False
+        if any(not (l < L or (l == L and A == 'right')) for l, a in _lexp(t[3])):
+            return False
+        return True
+    if t[0] == 'P':
+        return _valid(t[2]) and all(l < t[1] for l, a in _lexp(t[2]))
+    return _valid(t[1]) and all(l < t[2] for l, a in _rexp(t[1]))
+
+
+def _shape(v):
+    from .model import Obj
+    if isinstance(v, Obj):
+        if v.cls == 'Infix':
+            return ('I', _shape(v.left), v.operator, _shape(v.right))
+        if v.cls == 'Prefix':
+            return ('P', v.operator, _shape(v.right))
+        return ('Q', _shape(v.left), v.operator)
+    return ('o',)
+
+
+def _strip(t, sym):
+    if t[0] == 'I':
+        return ('I', _strip(t[1], sym), sym[t[2]], _strip(t[3], sym))
+    if t[0] == 'P':
+        return ('P', sym[t[1]], _strip(t[2], sym))
+    if t[0] == 'Q':
+        return ('Q', _strip(t[1], sym), sym[t[2]])
+    return t
+
+
+def optable_agreement(maxlen=5):
+    from .model import Spec, Model
+    from . import e1
+    kinds = ['left', 'right', 'infix', 'prefix', 'postfix']
+    syms = 'pqr'
+    inputs = e1.strings('1pqr', maxlen)
+    n = 0
+    for table in itertools.product(kinds, repeat=3):
+        rows = tuple((k, (('str', syms[i]),)) for i, k in enumerate(table))
+        sp = Spec([('start', ('rule', None, ('optable', ('str', '1'), rows)))])
+        kind_of = {syms[i]: (k, i) for i, k in enumerate(table)}
+        for text in inputs:
+            r = Model(sp).parse('start', text)
+            # flat scan into groups  P* O Q* (I P* O Q*)*
+            groups = []
+            p = 0
+            pending = None
+            while True:
+                q = p
+                pre = []
+                while q < len(text) and text[q] in kind_of and kind_of[text[q]][0] == 'prefix':
+                    pre.append(('pre', kind_of[text[q]][1]))
+                    q += 1
+                if q >= len(text) or text[q] != '1':
+                    break
+                q += 1
+                post = []
+                while q < len(text) and text[q] in kind_of and kind_of[text[q]][0] == 'postfix':
+                    post.append(('post', kind_of[text[q]][1]))
+                    q += 1
+                groups.append((pending, pre, post, q))
+                p = q
+                if p < len(text) and text[p] in kind_of and kind_of[text[p]][0] in ('left', 'right', 'infix'):
+                    pending = ('inf', kind_of[text[p]][1], kind_of[text[p]][0])
+                    p += 1
+                else:
+                    break
+            want = None
+            for k in range(len(groups), 0, -1):
+                toks = []
+                for pend, pre, post, end in groups[:k]:
+                    if pend:
+                        toks.append(pend)
+                    toks += pre + [('opd',)] + post
+                vs = [t for t in _trees(toks, 0, len(toks), {}) if _valid(t)]
+                if vs:
+                    assert len(vs) == 1, (table, text, vs)
+                    want = (_strip(vs[0], syms), groups[k - 1][3])
+                    break
+            got = None if r is None else (_shape(r[0]), r[1])
+            assert got == want, (table, text, got, want)
+            n += 1
+    return n
 
 
 def main():
+    t0 = time.time()
     from . import impl
-    impl.load()
-    from .model import Spec, Model, plain
-    sp = Spec([('start', ('rule', None, ('seq', ('str', 'a'), ('opt', ('str', 'b')))))])
-    assert Model(sp).parse('start', 'ab') == (['a', 'b'], 2)
-    assert Model(sp).parse('start', 'a') == (['a', None], 1)
-    assert Model(sp).parse('start', 'b') is None
-    print('selftest ok')
+    s = impl.load()
+    print('implementation under test:', s.__file__)
+    import signal
+    from . import runner
+    signal.signal(signal.SIGALRM, runner._alarm)
+    b = impl.build('start = "a"')
+    assert b[0] == 'OK', b
+    print('(a) documented examples:', doc_examples())
+    print('(b) memoised == un-memoised model runs:', memo_agreement())
+    print('(c) operator tables, Pratt builder == declarative tree filter on runs:', optable_agreement())
+    print('selftest ok in %.1fs' % (time.time() - t0))
     return 0
 
 
